@@ -299,12 +299,12 @@ def _sphere(case, rec):
 
 def clauses():
     return [
-        Clause("convex_polyhedron", _solid_case(True), lambda c, r: _solid(c, r, True), quick=160, thorough=4000, rule="ConvexPolyhedron",
+        Clause("convex_polyhedron", _solid_case(True), lambda c, r: _solid(c, r, True), quick=640, thorough=4000, rule="ConvexPolyhedron",
                floors={"batch1": 0.1, "special_direction": 0.3, "q_size>=1": 0.2}),
-        Clause("polyhedron", _solid_case(False), lambda c, r: _solid(c, r, False), quick=130, thorough=3000, rule="Polyhedron incl. non-convex",
+        Clause("polyhedron", _solid_case(False), lambda c, r: _solid(c, r, False), quick=520, thorough=3000, rule="Polyhedron incl. non-convex",
                floors={"batch1": 0.1, "special_direction": 0.3}),
-        Clause("polygon", _poly_case(), _polygon, quick=500, thorough=12000, rule="Polygon", floors={"cw_about_normal": 0.2, "batch1": 0.1, "tilted": 0.3}),
-        Clause("sphere", _sphere_case(), _sphere, quick=400, thorough=8000, rule="Sphere", floors={"batch1": 0.1}),
+        Clause("polygon", _poly_case(), _polygon, quick=2000, thorough=12000, rule="Polygon", floors={"cw_about_normal": 0.2, "batch1": 0.1, "tilted": 0.3}),
+        Clause("sphere", _sphere_case(), _sphere, quick=1600, thorough=8000, rule="Sphere", floors={"batch1": 0.1}),
     ]
 
 
